@@ -12,9 +12,10 @@ use std::collections::HashMap;
 use std::str::FromStr;
 
 /// Debian order, hard-coded as the reference (independent of the debversion crate).
-pub const POOL: [&str; 12] = ["0.9", "1.0~rc1", "1.0", "1.0-1", "1.0-1+b1", "1.0-1.1", "1.0+dfsg-1", "0:1.0", "0:1.0-1", "1.1", "1:0.5", "2:0~a"];
+/// (the first nine form the quick pool: it holds an explicit zero epoch and two non-zero epochs)
+pub const POOL: [&str; 12] = ["0.9", "1.0~rc1", "1.0", "1.0-1", "1.0+dfsg-1", "0:1.0", "1.1", "1:0.5", "2:0~a", "1.0-1+b1", "1.0-1.1", "0:1.0-1"];
 /// Debian rank of each pool entry: an explicit zero epoch ("0:1.0") is the same version as "1.0"
-pub const RANK: [u32; 12] = [0, 1, 2, 3, 4, 5, 6, 2, 3, 7, 8, 9];
+pub const RANK: [u32; 12] = [0, 1, 2, 3, 6, 2, 7, 8, 9, 4, 5, 3];
 pub const OPS12: [&str; 6] = ["", "<<", "<=", "=", ">=", ">>"];
 
 #[derive(Clone, Serialize, Deserialize, PartialEq, Debug)]
